@@ -20,6 +20,7 @@ EXPLANATION = (
     "changes when the waveform is expressed in another unit. sklearn/scipy routines are summarised as type-preserving (relative "
     "tolerances). C17.3: the record is shortened only at its end or by whole slots (start offsets multiples of sps), so the folded data "
     "stay aligned with the independently built slot time axis. C17.4: the populations handed to shortest_int are selected by value, not cut from the sorted record at a position that depends on the record length alone (a fixed rank assumes equal numbers of ones and zeros). C17.5: the folded record holds exactly the slots the time axis is built for: resampling keeps the slot rate (num*sps == len*sps_resamp, len being the symbolic sample count of the record) and without resampling the record has sps samples per slot of the axis. C17.6: the remainder cut from the record is taken modulo an even multiple of sps (the eye is folded into two-slot traces). Zero-padding FIR/polyphase routines count as mixing the data with a literal 0. Decided: these clauses; not decided: accuracy of levels, sigmas, crossings, sampling index (data-dependent numerics).")
+EXPLANATION += (' Added after the audit wave: C17.7 t_opt is searched midway between the two crossing times; C17.8 the boundary between the ON and OFF populations is computed from the level estimates and is not an element of the record; C17.9 the populations are drawn from every slot of the folded trace (no single sub-slot window on an axis that folds two slots).')
 TRUSTED = ["sklearn KMeans / scipy gaussian_kde / resample are equivariant under a common affine map of homogeneous data", "numpy semantics of mean/std/unique/roll"]
 
 F0, F1 = Fraction(0), Fraction(1)
@@ -589,6 +590,126 @@ def rule_midway(ctx, fi, eye, node, case):
               "so for records whose transitions are unevenly split between the slot-boundary parities t_opt, the sampling index and the level windows move off the eye centre)")
 
 
+def _is_sample_table(base, ys):
+    """the folded record, or an array of the input's own samples (sorted, unique, before resampling ...): not a table of estimates"""
+    r = repr(base)
+    return (ys in r or "input.signal" in r) and "shortest_int" not in r and "cluster_centers_" not in r
+
+
+def _sample_picks(b, y):
+    """idx atoms in the value b (through merges and sums) that pick an element out of the record y or out of a table derived from it alone"""
+    out = []
+    ys = repr(y)
+    def walk(v, depth=0):
+        if not isinstance(v, Form) or depth > 4:
+            return
+        for m in v.terms:
+            for a, _e in m:
+                if a[0] == "idx" and isinstance(a[1], Form) and not isinstance(a[2], SliceV) and _is_sample_table(a[1], ys):
+                    out.append(a)
+                elif a[0] == "phi":
+                    for ch in atom_children(a):
+                        walk(ch, depth + 1)
+    walk(b)
+    return out
+
+
+def rule_boundary(ctx, rule, fi=None):
+    """the ON and OFF populations behind mu0, mu1, s0, s1 are the centre samples strictly above / strictly below a boundary:
+    that boundary is computed from the level estimates, never a value picked out of the record itself - a sample value near
+    one of the levels (data with no sample close to the midpoint: a wide-open eye) is excluded by both strict comparisons
+    and can leave one population empty (mu0 / s0 = nan, threshold nan, every decision wrong)"""
+    pkg = ctx.pkg
+    fi = fi or pkg.func("devices.GET_EYE")
+    for resamp in (True, False):
+        case = f"sps_resamp {'given' if resamp else 'omitted'}"
+        it = Interp(pkg, param_classes={"input": "electrical_signal"}, assumptions={"input.noise": "none", "sps_resamp": ("truth", resamp)}, no_inline=("shortest_int",))
+        outs = it.run(fi)
+        rets = [o for o in outs if o.kind == "return" and isinstance(o.value, ObjV)]
+        if len(rets) != 1 or not isinstance(rets[0].value.fields.get("y"), Form):
+            ctx.unknown(rule, fi, fi.node, f"GET_EYE [{case}]: boundary between the level populations", f"{len(rets)} return paths / folded record not identified")
+            continue
+        eye, y = rets[0].value, rets[0].value.fields["y"]
+        seen = {}
+        for name in ("mu0", "mu1", "s0", "s1"):
+            v = eye.fields.get(name)
+            if not isinstance(v, Form):
+                continue
+            for a in v.atoms():
+                if a[0] == "fn" and a[1] in ("gt", "lt", "ge", "le") and len(a[2]) == 2 and (a[2][0] == y) != (a[2][1] == y):
+                    b = a[2][1] if a[2][0] == y else a[2][0]
+                    if isinstance(b, Form) and b.rational() is None:
+                        seen.setdefault(b.key(), (b, name))
+        if not seen:
+            ctx.unknown(rule, fi, rets[0].node, f"GET_EYE [{case}]: boundary between the level populations", "no comparison of the folded record with a level found in mu0/mu1/s0/s1")
+            continue
+        for b, name in seen.values():
+            picks = _sample_picks(b, y)
+            ctx.check(rule, not picks, fi, rets[0].node, f"GET_EYE [{case}]: populations of {name} split at {short(b, 100)}", "a value computed from the level estimates, not an element of the record",
+                      f"the boundary between the ON and OFF populations is {short(Form.atom(picks[0]), 160)}: a value picked out of the record. Both comparisons are strict, so on a wide-open eye "
+                      "(no sample near the midpoint: the nearest one is the extreme of a level) one population is empty, mu0 or mu1 is nan and the receiver's threshold is nan" if picks else "")
+
+
+def _axis_slots(t):
+    """number of slots one trace of the folded time axis spans: kron(ones(..), linspace(lo, hi, n)) with n = k*sps -> k"""
+    a = t.single_atom() if isinstance(t, Form) else None
+    if not (a and a[0] == "fn" and a[1].split(".")[-1] == "kron" and len(a[2]) == 2 and isinstance(a[2][1], Form)):
+        return None
+    l = a[2][1].single_atom()
+    if not (l and l[0] == "fn" and l[1].split(".")[-1] == "linspace" and len(l[2]) >= 3 and isinstance(l[2][2], Form)):
+        return None
+    for sps in (S("gv.sps"), S("sps_resamp")):
+        q = (l[2][2] / sps).rational()
+        if q is not None and q.denominator == 1 and q >= 1:
+            return int(q)
+    return None
+
+
+def rule_every_slot(ctx, rule):
+    """both symbols present does not mean both present at every slot parity: the record is folded two slots per trace, so a
+    window around ONE instant of the trace looks at every second slot only. Data whose ON slots all fall on the other parity
+    (1010..., PPM symbols that share their parity) leave the ON population empty: mu1 = s1 = nan and the receivers that
+    estimate their threshold from the eye decide nothing. The populations must be drawn at the optimum instant of EVERY slot
+    of the trace (a window on the slot-periodic time, or one window per slot)."""
+    pkg = ctx.pkg
+    fi = pkg.func("devices.GET_EYE")
+    for resamp in (True, False):
+        case = f"sps_resamp {'given' if resamp else 'omitted'}"
+        label = f"GET_EYE [{case}]: level populations drawn from every slot of the folded trace"
+        it = Interp(pkg, param_classes={"input": "electrical_signal"}, assumptions={"input.noise": "none", "sps_resamp": ("truth", resamp)}, no_inline=("shortest_int",))
+        rets = [o for o in it.run(fi) if o.kind == "return" and isinstance(o.value, ObjV)]
+        if len(rets) != 1 or not isinstance(rets[0].value.fields.get("t"), Form):
+            ctx.unknown(rule, fi, fi.node, label, f"{len(rets)} return paths / time axis not identified")
+            continue
+        eye, t = rets[0].value, rets[0].value.fields["t"]
+        k = _axis_slots(t)
+        lows, highs = [], []
+        for name in ("mu0", "mu1", "s0", "s1"):
+            v = eye.fields.get(name)
+            if isinstance(v, Form):
+                for a in v.atoms():
+                    if a[0] == "fn" and a[1] in ("gt", "ge", "lt", "le") and len(a[2]) == 2 and (a[2][0] == t) != (a[2][1] == t):
+                        t_first = a[2][0] == t
+                        other = a[2][1] if t_first else a[2][0]
+                        (lows if (a[1] in ("gt", "ge")) == t_first else highs).append(other)
+        td = eye.fields.get("t_dist")
+        narrow = None
+        if k is not None and k >= 2 and lows and highs and isinstance(td, Form) and td.terms and all(isinstance(x, Form) for x in lows + highs):
+            w = highs[0] - lows[0]
+            m0 = next(iter(td.terms))
+            c = w.terms.get(m0)
+            if c is not None and c[1] == 0 and td.terms[m0][1] == 0:
+                ratio = c[0] / td.terms[m0][0]
+                if w == td * Form.num(ratio) and 0 < ratio < Fraction(1, 2):
+                    narrow = ratio
+        if narrow is not None:
+            ctx.violation(rule, fi, rets[0].node, label,
+                          f"the time axis folds {k} slots per trace and the ON / OFF populations are the samples with {short(lows[0], 60)} < t < {short(highs[0], 60)}: one window of {float(narrow):g} of the crossing "
+                          "distance around a single instant, i.e. every second slot. Data whose ON slots share a parity (1010..., PPM symbols of one parity) give an empty population: mu1 = nan, no threshold"[:700])
+        else:
+            ctx.holds(rule, fi, rets[0].node, label, "no single sub-slot window on a multi-slot trace" if k != 1 else "one slot per trace")
+
+
 def rule_even_slots(ctx, rule):
     """the eye is folded into traces of TWO slots (the time axis is `nslots // 2` copies of a two-slot ramp), so the record must be
     cut to a whole number of two-slot periods: the remainder dropped at the end is taken modulo an even multiple of sps.  With a
@@ -776,3 +897,7 @@ def run(ctx):
     ctx.require_min("C17.5", 4)
     ctx.require_min("C17.6", 2)
     ctx.require_min("C17.7", 4)
+    rule_boundary(ctx, "C17.8")
+    ctx.require_min("C17.8", 2)
+    rule_every_slot(ctx, "C17.9")
+    ctx.require_min("C17.9", 2)
